@@ -727,12 +727,28 @@ theorem bdatBegin_keeps {a0 : A} {s : S} (h : Good a0 s) (hcl : s.c.closed = fal
       exact ⟨⟨hp.good hk.1.1, by rw [hp.cfg, hk.1.2, hcfg1]⟩, by rw [hp.c]; exact hk.2⟩
     · exact ⟨⟨hk.1.1, by rw [hk.1.2, hcfg1]⟩, hk.2⟩
 
-theorem bdatFail_keeps {a0 : A} {s : S} (h : Good a0 s) (left : Nat) (err : BRes) : Keeps a0 s (bdatFail s left err).1 := by
+theorem bdatFailReplies_good {a0 : A} {s : S} (h : Good a0 s) (k : Nat) (last : Bool) (err : BRes) :
+    Good a0 (bdatFailReplies s k last err) ∧ (bdatFailReplies s k last err).cfg = s.cfg := by
+  unfold bdatFailReplies
+  split
+  · simp only []
+    split
+    · exact ⟨writeLmtpStatuses_good _ h, by simp⟩
+    · split
+      · exact ⟨writeLmtpStatuses_good _ h, by simp⟩
+      · exact ⟨writeLmtpStatuses_good _ h, by simp⟩
+  · exact ⟨replyB_good h _ _ _, by simp⟩
+
+theorem bdatFail_keeps {a0 : A} {s : S} (h : Good a0 s) (k left : Nat) (last : Bool) (err : BRes) :
+    Keeps a0 s (bdatFail s k left last err).1 := by
   unfold bdatFail
   simp only []
+  have h1 := bdatFailReplies_good (setW_good h (discardN (wireFuel s.w) s.w left)) k last err
+  generalize bdatFailReplies (setW s (discardN (wireFuel s.w) s.w left)) k last err = s2 at h1 ⊢
+  have hcfg : s2.cfg = s.cfg := h1.2
   split
-  · exact ⟨setLimit_good (resetConn_good (closeConn_good (replyB_good (setW_good h _) _ _ _)).1).1 _, by simp⟩
-  · exact ⟨setLimit_good (resetConn_good (replyB_good (setW_good h _) _ _ _)).1 _, by simp⟩
+  · exact ⟨setLimit_good (resetConn_good (closeConn_good h1.1).1).1 _, by simp [hcfg]⟩
+  · exact ⟨setLimit_good (resetConn_good h1.1).1 _, by simp [hcfg]⟩
 
 theorem bdatFinal_keeps {a0 : A} {s : S} (h : Good a0 s) (k : Nat) : Keeps a0 s (bdatFinal s k).1 := by
   unfold bdatFinal
@@ -785,11 +801,11 @@ theorem bdatAfterCopy_keeps {a0 : A} {s : S} (h : Good a0 s) (k size left : Nat)
   unfold bdatAfterCopy
   cases ce with
   | done => exact bdatDone_keeps h _ _ _
-  | short => exact bdatFail_keeps h _ _
-  | srcErr e => exact bdatFail_keeps h _ _
+  | short => exact bdatFail_keeps h _ _ _ _
+  | srcErr e => exact bdatFail_keeps h _ _ _ _
   | pipeErr =>
     simp only []
-    split <;> exact bdatFail_keeps h _ _
+    split <;> exact bdatFail_keeps h _ _ _ _
 
 theorem bdatChunk_keeps {a0 : A} {s : S} (h : Good a0 s) (hcl : s.c.closed = false)
     (hfrom : s.c.fromReceived = true) (hr : s.c.recipients.isEmpty = false) (size : Nat) (last : Bool) :
